@@ -112,7 +112,7 @@ class LiSweep(Slice):
             yield {"cs": [c]}
 
     def required_classes(self, tier):
-        return ["wide", "narrow"] + ([] if tier == "thorough" else ["negative", "overwide"])
+        return ["wide", "narrow", "negative", "overwide"]
 
 
 class NameIndex(Slice):
@@ -225,4 +225,4 @@ def slices():
 
 
 BUDGET = {"quick": {"rvasm-data": 600, "li-sweep": 120, "name-index": 60, "help-example": "exhaustive"},
-          "thorough": {"rvasm-data": 20000, "li-sweep": "exhaustive", "name-index": 3000, "help-example": "exhaustive"}}
+          "thorough": {"rvasm-data": 20000, "li-sweep": ("exhaustive", 2000), "name-index": 3000, "help-example": "exhaustive"}}
